@@ -24,6 +24,7 @@ type Event struct {
 	Dir   string `json:"dir"` // "in" (service -> node), "out" (node -> service), "conn", "close"
 	Cmd   string `json:"cmd"`
 	Info  string `json:"info,omitempty"`
+	Ms    int64  `json:"ms"` // wall-clock milliseconds since the log was created (diagnosis only, never used by an oracle)
 }
 
 // GetHeadersSeen is a getheaders message received by a node (for C13).
@@ -38,6 +39,7 @@ type GetHeadersSeen struct {
 type Log struct {
 	mu     sync.Mutex
 	seq    int64
+	t0     time.Time
 	Events []Event
 	GetHdr []GetHeadersSeen
 	msgs   int64 // total messages in either direction
@@ -46,6 +48,10 @@ type Log struct {
 
 func (l *Log) add(e Event) {
 	l.mu.Lock()
+	if l.t0.IsZero() {
+		l.t0 = time.Now()
+	}
+	e.Ms = time.Since(l.t0).Milliseconds()
 	l.seq++
 	e.Seq = l.seq
 	if len(l.Events) < 20000 {
